@@ -73,8 +73,20 @@ CLAIMS = {
              "(list contents are configuration); commands() dispatch and bmfcheck are covered by their own proofs when listed "
              "in evidence.",
         design_ref="DESIGN.md section 5 C08"),
+    "C01": dict(
+        text="Proof (CBMC loop contracts on the unmodified qmail-queue.c main() and everything it calls in that file, every "
+             "environment call allowed to fail at every call site): todo/<id> is linked only when the Received line plus the "
+             "complete message and the complete envelope (grammar F addr NUL (T addr NUL)* NUL, each byte copied in order) "
+             "have been written, flushed and fsynced; success is returned only after that link; malformed envelope -> 91, "
+             "address >= 1003 bytes -> 11, read error/EOF -> 54, write/flush/fsync failure -> 53, each with cleanup of intd "
+             "then mess; the 24 h alarm is armed before the first file is created and its handler touches nothing. Because "
+             "the ordering obligations are checked at every system call, they hold at every crash point between calls.",
+        note="File-system semantics are an assumption (synchronous directory operations, honest fsync, unique inode numbers); "
+             "byte-exact content of the message copy rests on the substdio contracts (count level here); loss of unsynced "
+             "data is represented as the requirement 'synced before publication', not simulated.",
+        design_ref="DESIGN.md section 5 C01"),
 }
 
 NOT_APPLICABLE = {p: PENDING for p in
-                  ["C01", "C02", "C03", "C04", "C10", "C11", "C12", "C13", "C14",
+                  ["C02", "C03", "C04", "C10", "C11", "C12", "C13", "C14",
                    "C16", "C17", "C19", "C20"]}
